@@ -1,8 +1,10 @@
 """C16 — typed wiring: no type/integrity-violating flow; modules run once, in order."""
 from __future__ import annotations
 
+import functools
 import itertools
-
+import os
+import random
 import sys
 
 from ..core import Prop, Violation, import_repo, show_bool
@@ -44,6 +46,13 @@ class TvLike:
 # `exec E`: how the caller spells enforce_static_checks ("d": not at all)
 ENF = {"1": True, "0": False, "d": True, "i1": 1, "i0": 0, "s1": "no", "s0": "", "n0": None}
 
+# `callable KIND`: what kind of callable OBJECT the handlers registered from here on are (the property text says "every module
+# runs exactly once" whatever the handler is; a callable may well have a truth value of its own: a collector with __len__,
+# an empty list / dict subclass with __call__, an object with __bool__)
+CALLABLES = ["func", "lambda", "method", "partial", "obj", "boolfalse", "len0", "collector", "listsub", "dictsub"]
+FALSY_CALLABLES = ["boolfalse", "len0", "collector", "listsub", "dictsub"]
+CALLABLES_ALL = CALLABLES + ["boolraises"]      # constructible, not generated: `bool(handler)` raises
+
 EXC = ["RuntimeError", "TypeError", "ValueError", "KeyError", "AttributeError", "WiringError", "ZeroDivisionError"]
 
 
@@ -68,7 +77,7 @@ class C16(Prop):
     all_branches = (["mod:ok", "mod:moduleExists", "wire:ok", "wire:unknownOutputPort", "wire:unknownInputPort",
                      "wire:typeMismatch", "wire:integrityViolation", "rawwire", "handler:ret", "handler:retnone",
                      "handler:raise", "handler:xraise", "handler:retd", "handler:retv", "handler:unknownModule",
-                     "handler:retobj", "handler:reenter", "handler:mut", "handler2", "exec2", "names", "extmod"] + EDIT_TAGS + REWIRE_TAGS + [ "ext", "caps",
+                     "handler:retobj", "handler:reenter", "handler:mut", "handler2", "exec2", "names", "callable", "extmod"] + EDIT_TAGS + REWIRE_TAGS + [ "ext", "caps",
                      "caps2", "capsmut", "speccaps", "share:ok", "share:moduleExists", "mod2:ok", "flow:ok", "flow:typeMismatch",
                      "flow:integrityViolation", "exec:ok"]
                     # the per-delivery "Multiple values" guard is unreachable since fix 56841f4 (two wires into one port and
@@ -436,8 +445,23 @@ class C16(Prop):
         out += ["caps", "caps2"]
         return out
 
+    @staticmethod
+    def _callable_kinds(case, crng):
+        """the handlers of a generated case as callables of other kinds (own random stream: the cases themselves are the
+        ones the main stream drew before this axis existed); `callable KIND` holds until the next such line"""
+        lines = []
+        for l in case["lines"]:
+            if l.startswith("handler") and crng.random() < 0.6:
+                lines.append("callable " + crng.choice(CALLABLES + FALSY_CALLABLES * 2))
+            lines.append(l)
+        return {"lines": lines, "note": case["note"] + ", callable kinds"}
+
     def generate(self, rng, tier, n):
+        crng = random.Random(f"c16-callable-{os.environ.get('VERIF_SEED', '0')}-{tier}")
         for i in range(n):
+            if i % 7 == 3 and i % 50 != 49:      # drawn from the own stream entirely: the main stream is not shifted
+                yield self._callable_kinds(self._gen_case(crng, wild=crng.random() < 0.3), crng)
+                continue
             if i % 50 == 49:
                 # malformed stream
                 yield {"lines": [rng.choice(["exec 1", "caps", "wire 0 0 1 0", "handler 0 ret", "ext 0 0 raw 1",
@@ -445,7 +469,7 @@ class C16(Prop):
                                              "wire 0 0 0 0", "handler 0 ret 0:raw:3", "setin 0 0 0 0", "delin 0 0",
                                              "addcap 0 1", "handler 0 retobj list", "handler 0 mut del", "handler 0 reenter",
                                              "handler 0 retobj nothing", "setout 0 0 0 1", "delout 0 0", "exec2 1",
-                                             "handler2 0 ret 0:raw:1", "extmod 0", "extmod 9"])
+                                             "handler2 0 ret 0:raw:1", "extmod 0", "extmod 9", "callable len0", "callable nothing"])
                                  for _ in range(rng.randrange(1, 7))], "note": "malformed"}
             else:
                 yield self._gen_case(rng, wild=rng.random() < 0.3)
@@ -583,6 +607,36 @@ class C16(Prop):
                                "whose == / bool() raise, list, a duck-typed look-alike of TypedValue, tuple) as handler output "
                                "on a source and an inner module, as external input, through _coerce_*; instances of a "
                                "subclass of TypedValue with every label against every declared label", "cases": cases})
+        # N: what kind of callable the handler IS (function, lambda, bound method, partial, callable objects - also ones whose
+        # own truth value is false: __bool__ False, __len__ 0, a collector that is empty before its first run, empty list /
+        # dict subclasses with __call__); chain 0 -> 1 -> 2 declared 2, 1, 0
+        cases = []
+        chainN = ["mod 2 I 0:0:0 O C", "mod 1 I 0:0:1 O 0:0:1 C 1", "mod 0 I O 0:0:1 C 0", "wire 0 0 1 0", "wire 1 0 2 0"]
+        plain = {0: "handler 0 ret 0:raw:4", 1: "handler 1 ret 0:raw:5", 2: "handler 2 ret"}
+        for kd in CALLABLES:
+            for tgt in (0, 1, 2):
+                for hk in ("ret", "retd", "retv", "reenter", "mut add", "retobj emptylist", "xraise ValueError 1 once 1"):
+                    if tier == "quick" and hk in ("retd", "mut add") and kd not in FALSY_CALLABLES:
+                        continue
+                    hs = [plain[m] for m in range(3) if m != tgt]
+                    mine = [f"callable {kd}", f"handler {tgt} {hk}" + ("" if tgt == 2 else f" 0:raw:{4 + tgt}"), "callable func"]
+                    for first in (True, False):     # registered before / after the ordinary ones
+                        cases.append({"lines": chainN + (mine + hs if first else hs + mine) + ["exec 1", "exec 1", "exec 0"],
+                                      "note": "handler is a callable of another kind"})
+            # all three handlers of that kind; the same kind on a second executor; a sink without outputs on its own
+            cases.append({"lines": chainN + [f"callable {kd}", plain[0], plain[1], plain[2], "exec 1", "exec d", "exec 1"],
+                          "note": "handler is a callable of another kind"})
+            cases.append({"lines": chainN + [plain[0], plain[1], plain[2], f"callable {kd}", "handler2 0 ret 0:raw:40",
+                                             "handler2 1 ret 0:raw:41", "handler2 2 ret", "exec2 1", "exec 1", "exec2 1"],
+                          "note": "handler is a callable of another kind"})
+            cases.append({"lines": ["mod 0 I 0:0:0 O C", f"callable {kd}", "handler 0 ret", "ext 0 0 raw 3", "exec 1", "exec 1",
+                                    "mod 1 I O 0:0:1 C", "handler 1 ret 0:raw:2", "exec 1", "exec 1"],
+                          "note": "handler is a callable of another kind"})
+        spaces.append({"name": "the handler as a callable of each of %d kinds (function, lambda, bound method, partial, callable "
+                               "object; callable objects whose own truth value is false: __bool__ False, __len__ 0, a collector "
+                               "empty before its first run, empty list / dict subclass with __call__) on the source / inner / "
+                               "sink module of a chain, every call signature and answer style, repeated runs, second executor"
+                               % len(CALLABLES), "cases": cases})
         # G: a chain 0 -> 1 -> 2 in every dict order, every subset of the wired ports ALSO given an external value
         cases = []
         for perm in itertools.permutations([0, 1, 2]):
@@ -931,12 +985,63 @@ class C16(Prop):
                     return body(inputs)
             return h
 
+        shape = ["func"]             # `callable KIND`: what the handlers registered from here on are
+
+        def shaped(h):
+            """the scripted handler h as a callable of the current kind; every kind passes its arguments through unchanged"""
+            k = shape[0]
+            if k == "func":
+                return h
+            if k == "lambda":
+                return lambda *a, **kw: h(*a, **kw)
+            if k == "partial":
+                return functools.partial(h)
+            if k == "method":
+                class Service:
+                    def handle(self, *a, **kw):
+                        return h(*a, **kw)
+                return Service().handle
+            if k == "listsub":
+                class Pipeline(list):            # a pipeline of steps; no steps = pass-through; bool(Pipeline()) is False
+                    def __call__(self, *a, **kw):
+                        return h(*a, **kw)
+                return Pipeline()
+            if k == "dictsub":
+                class Registry(dict):
+                    def __call__(self, *a, **kw):
+                        return h(*a, **kw)
+                return Registry()
+
+            class Obj:
+                def __init__(self):
+                    self.seen = 0
+
+                def __call__(self, *a, **kw):
+                    self.seen += 1
+                    return h(*a, **kw)
+            if k == "boolfalse":
+                Obj.__bool__ = lambda self: False
+            elif k == "len0":
+                Obj.__len__ = lambda self: 0
+            elif k == "collector":
+                Obj.__len__ = lambda self: self.seen       # empty before its first run, then not
+            elif k == "boolraises":
+                def _b(self):
+                    raise RuntimeError("bool() of a handler")
+                Obj.__bool__ = _b
+            return Obj()
+
         for line in case["lines"]:
             t = line.split()
             x = None
             try:
                 op = t[0]
                 if op == "names" and len(t) == 2:
+                    o = "ok"
+                elif op == "callable" and len(t) == 2:
+                    if t[1] not in CALLABLES_ALL:
+                        raise ValueError
+                    shape[0] = t[1]
                     o = "ok"
                 elif op in ("mod", "mod2"):
                     rest = t[2:]
@@ -1008,9 +1113,9 @@ class C16(Prop):
                     try:
                         nexec[0] += 1
                         if nexec[0] % 2:
-                            exe.register_module(mname(n), mk_handler(n, kind, entries, fail, sig, obj, mut, exe))
+                            exe.register_module(mname(n), shaped(mk_handler(n, kind, entries, fail, sig, obj, mut, exe)))
                         else:
-                            exe.register_module(handler=mk_handler(n, kind, entries, fail, sig, obj, mut, exe), name=mname(n))
+                            exe.register_module(handler=shaped(mk_handler(n, kind, entries, fail, sig, obj, mut, exe)), name=mname(n))
                         o = "ok"
                         (mut_mods[which].add if mut else mut_mods[which].discard)(n)
                     except Exception as e:
